@@ -1,6 +1,6 @@
 (* Runner.v — top of the executable model: dispatches one request line. *)
 From Coq Require Import String.
-From GS Require Import GoSem Text Dispatch DispatchHuman DispatchParsers DispatchScan DispatchRef.
+From GS Require Import GoSem Text Dispatch DispatchHuman DispatchParsers DispatchScan DispatchRef DispatchConfig.
 Open Scope N_scope.
 
 Definition first_some (l : list (option bytes)) : bytes :=
@@ -15,6 +15,7 @@ Definition dispatch (line : bytes) : bytes :=
       first_some [ dispatch_counts cmd args; dispatch_human cmd args;
                    dispatch_parsers cmd args;
                    dispatch_scan cmd args;
-                   dispatch_ref cmd args ]
+                   dispatch_ref cmd args;
+                   dispatch_config cmd args ]
   | [] => err "empty"
   end.
